@@ -1325,14 +1325,22 @@ def confirm_timeouts(fname, jobs, results, timeout, module=None, narrow=None):
 THEOREMS = ['Props.C05.' + t for t in ['binding_is_modelled', 'column_boundaries_correct', 'row_slicing_correct', 'field_value_printed', 'blank_field_is_zero',
                                     'field_beyond_row_is_zero', 'line_terminator_ignored', 'row_format_decidable', 'icolumn_negative_first_real_witness',
                                     'rows_keyed_by_printed_index', 'rows_in_index_order', 'skip_lands_where_read_lands', 'autough2_row_split_correct',
-                                    'autough2_adjacent_numbers_merge', 'addressing_agrees', 'reversed_key_row']]
-LEVEL_TEXT = ('Proof: 16 Lean theorems about the row layer of the reader and listingtable: parse_table_line infers exactly the field starts from a line of '
+                                    'autough2_adjacent_numbers_merge', 'addressing_agrees', 'reversed_key_row',
+                                    'data_line_meaning', 'table_read_TOUGH2', 'cells_equal_printed_table_TOUGH2',
+                                    'skip_table_lands_where_read_lands_TOUGH2']]
+LEVEL_TEXT = ('Proof: Lean theorems about the row layer of the reader and listingtable, and their composition over the table-reading loop of the whole-file model: parse_table_line infers exactly the field starts from a line of '
               'right-aligned number fields (column_boundaries_correct; its side conditions are decided on the longest line of every table by a '
               'procedure proved sound, row_format_decidable); read_table_line_TOUGH2 never raises, cell k is fortran_float of columns [b_k,b_k+1) and '
               'blank / missing trailing cells are 0.0 (row_slicing_correct + field lemmas re-using C16); the AUTOUGH2 whitespace split returns exactly '
               'the printed numbers and merges numbers printed without a blank; rows are kept one per printed index in index order; row-index, '
-              'row-name and column-name addressing agree and a reversed connection name gives the negated row. No sorry. Partial: the composition '
-              'for whole files (cells_equal_printed) and skip-table independence beyond the file position (skip_lands_where_read_lands) are not proved; '
+              'row-name and column-name addressing agree and a reversed connection name gives the negated row. '
+              'Whole table, TOUGH2 family (read_table_TOUGH2, bound for TOUGH2/TOUGH2_MP/TOUGH3/TOUGHREACT/TOUGH+): for arbitrary lines forming a table region that is well formed for the layout recorded at set-up '
+              '(decidable predicate TableRegionT: header_skiplines header lines, then per entry of skiplines one data line plus that many skipped lines, every data line keyed by a row of the table and read without error), '
+              'the model of read_table_TOUGH2 returns, leaves the file exactly behind the region, stores under the row named by each data line the values of the row reader on that line (a later line naming the same row wins, as coded), '
+              'leaves unnamed rows, other tables and all other reader state unchanged (table_read_TOUGH2; data_line_meaning spells out the per-line predicate); '
+              'each such cell is fortran_float of the column slice of its line (cells_equal_printed_table_TOUGH2); skip_table_TOUGH2 on the same region ends at the same position as reading it when no row is printed twice (skip_table_lands_where_read_lands_TOUGH2). '
+              'No sorry. Partial: not proved are that setup_table_TOUGH2 records a layout for which the printed region is well formed (the link from set-up to TableRegionT), the walk between tables (next_table) and hence the composition over all tables of a result block and over whole files (cells_equal_printed), '
+              'and skip-table independence beyond the file position; '
               'the per-simulator method binding is regenerated from the source on every run and the model dispatches through it (binding_is_modelled); the rest is covered by the executable whole-file Lean model of '
               't2listing (all six simulators) compared with the real reader cell for cell (bit-equal doubles) on all 37 shipped files at every result '
               'time and on value-perturbed copies, and by an independent tokenizer oracle on the printed rows.')
